@@ -61,6 +61,8 @@ class FakeSocket(object):
     self.connected = False
     self.eof = False
     self.err = None
+    self._trickle_q = []
+    self._pumping = False
     self.err_reported = False
     self.spins = 0
     self.server = None
@@ -208,10 +210,37 @@ class FakeSocket(object):
   def deliver(self, data):
     if self.closed or self.eof or self.err is not None:
       return False
-    self.net.record('rx', self, bytes(data))
-    self.rx += data
-    self.rx_evt.set()
+    tr = self.net.trickle
+    pieces = tr(self, bytes(data)) if tr is not None else None
+    if not pieces:
+      if self._trickle_q:
+        self._trickle_q.append((0.0, bytes(data)))      # stays behind what is still on its way
+        return True
+      self.net.record('rx', self, bytes(data))
+      self.rx += data
+      self.rx_evt.set()
+      return True
+    # the peer's bytes arrive as several segments with time in between: a reader blocks (yields) part-way through
+    self._trickle_q.extend(pieces)
+    if not self._pumping:
+      self._pumping = True
+      gevent.spawn(self._pump)
     return True
+
+  def _pump(self):
+    try:
+      while self._trickle_q:
+        delay, chunk = self._trickle_q.pop(0)
+        if delay:
+          gevent.sleep(delay)
+        if self.closed or self.eof or self.err is not None:
+          del self._trickle_q[:]
+          return
+        self.net.record('rx', self, chunk)
+        self.rx += chunk
+        self.rx_evt.set()
+    finally:
+      self._pumping = False
 
   def deliver_eof(self):
     if not self.eof:
@@ -287,6 +316,7 @@ class SimNet(object):
     self.n_resolve = 0
     self.resolve_fail = set()   # indices of name resolutions (one per connect attempt) that fail
     self.stall = None      # fn(sock, data, send_index) -> None | (k bytes, seconds)
+    self.trickle = None    # fn(sock, data) -> None | [(delay seconds, bytes), ...]: how a delivery is spread over time
     self.sockets = []
 
   def install(self):
